@@ -703,6 +703,47 @@ func (c *Ctx) applyOp(name string, m modeling.Mesh) opRun {
 		if c.Rng.Intn(4) == 0 {
 			box = geometry.NewAABB(vector3.Zero[float64](), vector3.New(1e6, 1e6, 1e6))
 		}
+		// boundary cases: the box is closed on BOTH sides, so points exactly on a face (in particular on the maximum
+		// faces) are inside. (i) the cloud's own bounding box, (ii) a zero-thickness box through a vertex, (iii) the box
+		// that is exactly one vertex, (iv) a box from a vertex (minimum corner) to another vertex (maximum corner)
+		if m.HasFloat3Attribute(attr) && m.AttributeLength() > 0 && c.Rng.Intn(2) == 0 {
+			d := m.Float3Attribute(attr)
+			pts := make([]vector3.Float64, d.Len())
+			finite := true
+			for i := range pts {
+				pts[i] = d.At(i)
+				if s := pts[i].X() + pts[i].Y() + pts[i].Z(); math.IsNaN(s) || math.IsInf(s, 0) {
+					finite = false
+				}
+			}
+			if finite {
+				v := pts[c.Rng.Intn(len(pts))]
+				w := pts[c.Rng.Intn(len(pts))]
+				switch c.Rng.Intn(4) {
+				case 0:
+					c.Note("crop:own-bounding-box")
+					box = geometry.NewAABBFromPoints(pts...)
+				case 1:
+					c.Note("crop:zero-thickness")
+					size := vector3.New(float64(2*c.Rng.Intn(4)), float64(2*c.Rng.Intn(4)), float64(2*c.Rng.Intn(4)))
+					switch c.Rng.Intn(3) {
+					case 0:
+						size = size.SetX(0)
+					case 1:
+						size = size.SetY(0)
+					default:
+						size = size.SetZ(0)
+					}
+					box = geometry.NewAABB(v, size)
+				case 2:
+					c.Note("crop:single-vertex-box")
+					box = geometry.NewAABB(v, vector3.Zero[float64]())
+				default:
+					c.Note("crop:vertex-to-vertex")
+					box = geometry.NewAABBFromPoints(v, w)
+				}
+			}
+		}
 		return runOp(name, fmt.Sprintf("%s %s %s", attr, mbbF(box), ms), false, func() []modeling.Mesh {
 			return one(meshops.CropFloat3Attribute(m, attr, box))
 		})
@@ -1036,6 +1077,97 @@ func (c *Ctx) noteFloatOnly(op string, m modeling.Mesh, attr string, iters int) 
 			if !r {
 				c.Note("lap:neighbourless")
 				break
+			}
+		}
+	}
+}
+
+// branchCase: a BRANCHING history. `base` is built by a chain of Appends (or repeat.Mesh), so that an implementation that
+// extends its receiver's slices in place would leave spare capacity behind; then TWO results are derived from the same
+// base, x := base.Append(p) and y := base.Append(q), and x (and base) are read AGAIN after y exists. The snapshots taken
+// at creation time are what the later reads are compared with.
+type branchCase struct {
+	baseS, pS, qS string // snapshots (line protocol) at creation time
+	xSnap, ySnap  string
+	base, p, q    modeling.Mesh
+	x, y          modeling.Mesh
+	viaRepeat     bool
+}
+
+func (c *Ctx) genBranchCase() branchCase {
+	topo := []modeling.Topology{modeling.TriangleTopology, modeling.TriangleTopology, modeling.PointTopology, modeling.LineTopology}[c.Rng.Intn(4)]
+	g := meshGen{topo: []modeling.Topology{topo}, needPos: true, maxVerts: 6, materials: true}
+	small := func() modeling.Mesh {
+		for {
+			m := c.genMesh(g)
+			if m.Indices().Len() > 0 && m.Indices().Len() <= 12 {
+				return m
+			}
+		}
+	}
+	var b branchCase
+	if c.Rng.Intn(3) == 0 {
+		b.viaRepeat = true
+		c.Note("branch:base=repeat.Mesh")
+		ts := make([]trs.TRS, 1+c.Rng.Intn(4))
+		for i := range ts {
+			ts[i] = trs.Position(c.smallV3())
+		}
+		b.base = repeat.Mesh(small(), ts)
+	} else {
+		k := 1 + c.Rng.Intn(4)
+		c.Note(fmt.Sprintf("branch:base=append-chain-%d", k))
+		b.base = small()
+		for i := 0; i < k; i++ {
+			b.base = b.base.Append(small())
+		}
+	}
+	b.p, b.q = small(), small()
+	b.baseS, b.pS, b.qS = meshStr(b.base), meshStr(b.p), meshStr(b.q)
+	b.x = b.base.Append(b.p)
+	b.xSnap = meshStr(b.x)
+	b.y = b.base.Append(b.q)
+	b.ySnap = meshStr(b.y)
+	return b
+}
+
+// emptyAppends: Append with an EMPTY receiver and / or an EMPTY argument across all topology pairs. The topology check
+// must not depend on whether a side has indices: a mismatch is rejected, a match keeps the topology.
+func (c *Ctx) emptyAppends(emit func(r opRun, recv modeling.Mesh)) {
+	for _, t1 := range topoAll {
+		for _, t2 := range topoAll {
+			t1, t2 := t1, t2
+			pts := 4 + c.Rng.Intn(2) // 4 or 5 vertices: fits neither 3 nor (for 5) 2 or 4
+			full := func(t modeling.Topology) modeling.Mesh {
+				pos := make([]vector3.Float64, pts)
+				idx := make([]int, pts)
+				for i := range pos {
+					pos[i] = vector3.New(float64(i), float64(i*i%3), 0)
+					idx[i] = i
+				}
+				k := pts - pts%t.IndexSize()
+				if t == modeling.PointTopology || t == modeling.LineStripTopology || t == modeling.LineLoopTopology {
+					k = pts
+				}
+				return modeling.NewMesh(t, idx[:k]).SetFloat3Attribute(modeling.PositionAttribute, pos)
+			}
+			noIdx := func(t modeling.Topology) modeling.Mesh { // vertices but no index
+				return modeling.NewMesh(t, []int{}).SetFloat3Attribute(modeling.PositionAttribute, []vector3.Float64{vector3.New(9., 9., 9.)})
+			}
+			cases := []struct {
+				tag        string
+				recv, argm modeling.Mesh
+			}{
+				{"empty-recv", modeling.EmptyMesh(t1), full(t2)},
+				{"noidx-recv", noIdx(t1), full(t2)},
+				{"empty-arg", full(t1), modeling.EmptyMesh(t2)},
+				{"both-empty", modeling.EmptyMesh(t1), modeling.EmptyMesh(t2)},
+			}
+			for _, cs := range cases {
+				cs := cs
+				c.Note("append-empty:" + cs.tag)
+				r := runOp("append", meshStr(cs.recv)+" "+meshStr(cs.argm), false, func() []modeling.Mesh { return one(cs.recv.Append(cs.argm)) })
+				emit(r, cs.recv)
 			}
 		}
 	}
